@@ -1,11 +1,17 @@
 #!/bin/bash
-# evaluates every seed directory under /tmp/seedout that has no /verif/seeded/<P>-<n> yet
+# evaluates every finished seed directory under /tmp/seedout (round 1, names
+# <P>-1/-2) and /tmp/seedout2 (round 2, names <P>-3/-4) that has no
+# /verif/seeded/<name>/meta.json yet
 cd /verif
-for d in /tmp/seedout/*/*/; do
-  P=$(basename $(dirname $d)); N=$(basename $d); NAME=$P-$N
-  [ -f $d/patch.diff ] && [ -f $d/meta.json ] && [ -f $d/demo_test.go ] || continue
-  [ -f seeded/$NAME/meta.json ] && continue
-  echo "=== $NAME $(date +%H:%M:%S)" >> out/eval_seeded.log
-  tools/eval_seeded.py $d $NAME >> out/eval_seeded.log 2>&1
+for root in /tmp/seedout:0 /tmp/seedout2:2 /tmp/seedout3:4; do
+  R=${root%%:*}; OFF=${root##*:}
+  for d in $R/*/*/; do
+    [ -d "$d" ] || continue
+    P=$(basename $(dirname $d)); N=$(basename $d); NAME=$P-$((N+OFF))
+    [ -f $d/patch.diff ] && [ -f $d/meta.json ] && [ -f $d/demo_test.go ] || continue
+    [ -f seeded/$NAME/meta.json ] && continue
+    echo "=== $NAME $(date +%H:%M:%S)" >> out/eval_seeded.log
+    tools/eval_seeded.py $d $NAME >> out/eval_seeded.log 2>&1
+  done
 done
 echo "=== done $(date +%H:%M:%S)" >> out/eval_seeded.log
